@@ -61,7 +61,7 @@ let show_rnat = function
   | Res.Err e -> err_tok e
   | Res.Panic s -> panic_tok s
 
-let cls typ pay =
+let cls fx typ pay =
   let m = { MediaMsgChecked.mm_type = n_of_token typ; mm_ts = BinNums.N0; mm_pay = bytes_of_token pay } in
   let open MediaMsgChecked in
   let parts = [
@@ -158,7 +158,7 @@ let parse_kv s =
       | Some i -> Some (String.sub kv 0 i, int_of_string (String.sub kv (i + 1) (String.length kv - i - 1)))
       | None -> None) (split_on ',' s)
 
-let bcast cfgtok evtok =
+let bcast fx cfgtok evtok =
   let kv = parse_kv cfgtok in
   let get k = try Stdlib.List.assoc k kv with Not_found -> 0 in
   let on k = get k <> 0 in
@@ -183,8 +183,11 @@ let bcast cfgtok evtok =
   if toks = [] then "-" else String.concat "," toks
 
 let register () =
-  Registry.register "c05.cls" (function [t; p] -> cls t p | _ -> "bad-args");
+  Registry.register "c05.cls" (function [t; p] -> cls fx t p | _ -> "bad-args");
+  (* the same two ops on the model of the pinned tree: used to replay _refuted witnesses against a lalprobe built from the pinned lal *)
+  Registry.register "c05.cls0" (function [t; p] -> cls MediaMsgChecked.fixes_pinned t p | _ -> "bad-args");
+  Registry.register "c05.bcast0" (function [c; e] -> bcast MediaMsgChecked.fixes_pinned c e | _ -> "bad-args");
   Registry.register "c05.dummy" (function [w; m; e] -> dummy w m e | _ -> "bad-args");
   Registry.register "c05.ts" (function [e] -> ts e | _ -> "bad-args");
   Registry.register "c05.rtsp" (function [f; e] -> rtsp f e | _ -> "bad-args");
-  Registry.register "c05.bcast" (function [c; e] -> bcast c e | _ -> "bad-args")
+  Registry.register "c05.bcast" (function [c; e] -> bcast fx c e | _ -> "bad-args")
